@@ -35,7 +35,57 @@ def _is_meta(name):
     return len(name) >= 2 and name[0] == '_' and name[1].isupper()
 
 
+SIGNATURES = {}     # callable name -> parameter names (set by the driver from the analysed tree; unique names only)
+
+
+def _callee_name(call):
+    f = call.func
+    if isinstance(f, ast.Name):
+        return f.id
+    if isinstance(f, ast.Attribute):
+        return f.attr
+    return None
+
+
+def _canonical_args(call):
+    '''positional/keyword arguments of a call as one list in parameter order (None when the callee is unknown or the call
+    cannot be aligned with its signature)'''
+    params = SIGNATURES.get(_callee_name(call))
+    if params is None or any(isinstance(a, ast.Starred) for a in call.args) or any(k.arg is None for k in call.keywords):
+        return None
+    if len(call.args) > len(params):
+        return None
+    out = dict(zip(params, call.args))
+    for k in call.keywords:
+        if k.arg not in params or k.arg in out:
+            return None
+        out[k.arg] = k.value
+    return out
+
+
+def _match_call_by_signature(pat, node, env):
+    '''f(a, y=b) matches f(a, b): the same arguments reach the same parameters'''
+    if _callee_name(pat) != _callee_name(node) or _is_meta(_callee_name(pat) or ''):
+        return False
+    pa, na = _canonical_args(pat), _canonical_args(node)
+    if pa is None or na is None or set(pa) != set(na):
+        return False
+    trial = dict(env)
+    if not _match(pat.func, node.func, trial):
+        return False
+    for k in pa:
+        if not _match(pa[k], na[k], trial):
+            return False
+    env.clear()
+    env.update(trial)
+    return True
+
+
 def _match(pat, node, env):
+    if isinstance(pat, ast.Call) and isinstance(node, ast.Call) and SIGNATURES and \
+            (len(pat.args) != len(node.args) or [k.arg for k in pat.keywords] != [k.arg for k in node.keywords]):
+        if _match_call_by_signature(pat, node, env):
+            return True
     if isinstance(pat, ast.Name):
         if pat.id == '__':
             return True
